@@ -62,4 +62,25 @@ def jax_solver(method, it):
     return c
 
 
-CONTRACTS = [torch_euler(), jax_solver("_solve_euler", "euler_iter"), jax_solver("_solve_heun", "heun_iter")]
+# ---- index hook shared by all code-generating backends: an index into a 0-based, end-exclusive Python selection is emitted for a
+# language whose first index is `start` (0: Python family, 1: Fortran / Julia / Matlab with inclusive ends):
+#   scalar i      ->  i + start
+#   range (a, b)  ->  (a + start):b        (a 1-based inclusive range a+1..b selects the same b - a elements as the 0-based a..b-1)
+FB = "pyrates/backend/base/base_backend.py"
+CLASSES["BaseBackend"] = dict(fields={"_start_idx": "int"})
+
+
+def process_idx(kind):
+    c = dict(name=f"BaseBackend._process_idx[{kind.split('(')[0]}]", prop="C02", target=f"{FB}::BaseBackend._process_idx",
+             params={"self": "obj:BaseBackend", "idx": kind, "kwargs": "opaque"},
+             requires=["self._start_idx >= 0"] + (["idx >= 0"] if kind == "int" else ["idx[0] >= 0", "idx[1] >= 0"]),
+             modifies=[], returns="str", unknown_calls="opaque")
+    if kind == "int":
+        c["ensures"] = ["result == str(idx + self._start_idx)"]
+    else:
+        c["ensures"] = ["result == str(idx[0] + self._start_idx) + ':' + str(idx[1])"]
+    return c
+
+
+CONTRACTS = [torch_euler(), jax_solver("_solve_euler", "euler_iter"), jax_solver("_solve_heun", "heun_iter"),
+             process_idx("int"), process_idx("tuple(int,int)")]
